@@ -425,7 +425,7 @@ def s_floats():
                                2.0 ** 63 + 2048, 2.0 ** 64, -(2.0 ** 64), 1e19, 2.0 ** 63 + 0.0, 4611686018427387904.5 - 0.5])
     # integer-valued floats at the machine-word boundaries and of every width (float -> int conversions have word fast paths)
     intf = st.one_of(s_ints(), wide_ints(40, 80)).map(float)
-    halff = st.builds(lambda n, s: s * (n + 0.5), st.integers(0, 2 ** 52 - 1), st.sampled_from([1, -1]))
+    halff = st.builds(lambda n, s: s * (n + 0.5), wide_ints(1, 52, signed=False), st.sampled_from([1, -1]))
     dyadic = st.builds(lambda n, k: n / (2 ** k), st.integers(-4096, 4096), st.integers(0, 10))
     return st.one_of(special, dyadic, st.floats(allow_nan=False, allow_infinity=False), st.floats(width=32, allow_nan=False), intf, halff)
 
